@@ -454,7 +454,7 @@ def execute(run, cov, log):
 # --------------------------------------------------------------------------
 # generation
 # --------------------------------------------------------------------------
-def gen_history(rng, curve, n_target):
+def gen_history(rng, curve, n_target, graded=False):
     """Seeded bisection history on a scratch mesh (generation time only)
     reaching about n_target leaves."""
     config = {'kind': 'param', 'curve': curve, 'space': None, 'time': None}
@@ -466,6 +466,28 @@ def gen_history(rng, curve, n_target):
         case.model.adopt(case.impl_boxes())
     mm = case.model
     ops = []
+    if graded:
+        # mesh graded towards one point (a few steps right of a break point
+        # or of the seam, optionally also towards a time): deep levels give
+        # elements whose coordinates differ only in late digits -- the
+        # adversarial input for anything that keys on printed coordinates
+        from .refmesh import S
+        col = rng.randrange(mm.n_x)
+        px = col * S + rng.choice([1, 1, S - 1, S // 2 + 1])
+        pt_t = rng.choice([1, mm.n_t * S - 1, S // 2 + 1])
+        depth = rng.choice([10, 13, 16, 18, 19, 20, 21, 22])
+        if graded == 'deep':
+            depth = rng.choice([20, 21, 22])
+            col = rng.randrange(1, mm.n_x) if mm.n_x > 1 else 0
+            px = col * S + rng.choice([1, 1, mm.n_x * S - col * S - 1
+                                       if mm.n_x == 1 else 1])
+            pt_t = rng.choice([S // 2 + 1, mm.n_t * S - 1])
+        for k in range(depth):
+            ax = 1 if rng.random() < 0.85 else 0
+            op = {'op': 'bisect', 'pt': [pt_t, px], 'axis': ax}
+            meshsim.model_apply(case, mm, op, 4000)
+            ops.append(op)
+        return ops, len(mm.leaves)
     if rng.random() < 0.5 and len(mm.leaves) * 4 <= n_target:
         ops.append({'op': 'uniform'})
         meshsim.model_apply(case, mm, ops[-1], 4000)
@@ -555,7 +577,11 @@ def gen_run(seed, params):
     ops = []
     sess = {}  # sid -> dict(curve, n, dir, pool of selections)
     twin = rng.random() < params.get('p_twin', 0.15)
+    lookalike = (not twin) and rng.random() < params.get('p_lookalike', 0.08)
     n_sessions = 2 if twin or rng.random() < 0.25 else 1
+    if lookalike:
+        n_sessions = 1
+    graded = False
     for sid in range(n_sessions):
         if twin:
             curve = ['UnitSquare', 'LShape'][sid]
@@ -568,7 +594,13 @@ def gen_run(seed, params):
             curve = rng.choice(params.get(
                 'curves',
                 ['UnitSquare', 'PiSquare', 'LShape', 'Circle', 'UnitInterval']))
-            hist, _ = gen_history(rng, curve, rng.choice([10, 12, 16, 24, 36]))
+            graded = rng.random() < params.get('p_graded', 0.25)
+            if lookalike:
+                graded = 'deep'
+                curve = rng.choice(['UnitSquare', 'LShape', 'PiSquare',
+                                    'UnitInterval', 'Circle'])
+            hist, _ = gen_history(rng, curve, rng.choice([10, 12, 16, 24, 36]),
+                                  graded=graded)
             d = rng.randrange(n_dirs)
         spec = {'op': 'session', 'sid': sid, 'curve': curve, 'history': hist,
                 'dir': d}
@@ -581,10 +613,43 @@ def gen_run(seed, params):
         tmp = Session(spec, ['/nonexistent'] * n_dirs, dirs)
         leaves = canon_leaves(tmp.case.mesh)
         sess[sid] = {'curve': curve, 'n': len(leaves), 'hist': hist,
-                     'sels': [], 'leaves': [geom(e) for e in leaves]}
+                     'sels': [], 'leaves': [geom(e) for e in leaves],
+                     'graded': (not twin) and graded}
     n_ops = rng.randint(3, params.get('max_ops', 10))
     workers_session = rng.randint(1, 16)
     dead = set()
+    if lookalike:
+        # two calls whose lists have equal lengths and differ in one element
+        # only: the deepest leaf against its neighbour (coordinates agree in
+        # all but the last digits)
+        S0 = sess[0]
+        n, g = S0['n'], S0['leaves']
+        deep = sorted(range(n), key=lambda q: (
+            (g[q][1][1] - g[q][1][0]) * (g[q][0][1] - g[q][0][0]), q))
+        k = deep[0]
+        others = [i for i in rng.sample(range(n), min(n, 14)) if i != k]
+        twin_k = next((c for c in (k + 1, k - 1, k + 2, k - 2)
+                       if 0 <= c < n and c not in others), None)
+        if twin_k is not None and len(others) >= 9:
+            others = [i for i in others if i != twin_k][:rng.randint(9, 12)]
+            A = {'kind': 'sub', 'idx': [k] + others}
+            B = {'kind': 'sub', 'idx': [twin_k] + others}
+            T = {'kind': 'sub', 'idx': rng.sample(range(n), min(n, 10))}
+            side = rng.random()
+            for first, second in ((A, B), ):
+                for sel in (first, second):
+                    base = {'sid': 0, 'use_mp': rng.random() < 0.5,
+                            'workers': rng.randint(1, 16),
+                            'sched_seed': rng.randrange(1 << 30),
+                            'set_seed': rng.randrange(1 << 30)}
+                    if side < 0.45:
+                        ops.append(dict(base, op='slm', test=sel, trial=T))
+                    elif side < 0.9:
+                        ops.append(dict(base, op='slm', test=T, trial=sel))
+                    elif S0['curve'] in WITH_DOMAIN:
+                        ops.append(dict(base, op='m0v', sel=dict(
+                            sel, idx=sel['idx'][:4])))
+            S0['sels'].append((A, T))
     for _ in range(n_ops):
         sid = rng.randrange(n_sessions)
         S = sess[sid]
@@ -629,6 +694,7 @@ def gen_run(seed, params):
                            'history': S['hist'], 'dir': 0},
                           ['/nonexistent'] * n_dirs, dirs)
             S['n'] = len(tmp.case.mesh.leaf_elements)
+            S['leaves'] = [geom(e) for e in canon_leaves(tmp.case.mesh)]
             S['sels'] = []
             continue
         use_mp = rng.random() < 0.65
@@ -671,6 +737,22 @@ def gen_run(seed, params):
         elif reuse and reuse < 0.65:
             _, trial = rng.choice(S['sels'])
             test = {'kind': 'perm', 'seed': rng.randrange(1 << 30)}
+        elif reuse and reuse < (0.95 if S.get('graded') else 0.8) and any(
+                t['kind'] == 'sub' for t, _ in S['sels']):
+            # near-identical list: one element (the smallest) swapped for
+            # its neighbour in the canonical order -- same lengths, same
+            # curve, coordinates that agree in all but the last digits
+            test0, trial = rng.choice(
+                [p for p in S['sels'] if p[0]['kind'] == 'sub'])
+            idx = [i % n for i in test0['idx']]
+            g = S['leaves']
+            k = min(range(len(idx)),
+                    key=lambda q: (g[idx[q]][1][1] - g[idx[q]][1][0], q))
+            for cand in (idx[k] + 1, idx[k] - 1, idx[k] + 2):
+                if 0 <= cand < n and cand not in idx:
+                    idx = idx[:k] + [cand] + idx[k + 1:]
+                    break
+            test = {'kind': 'sub', 'idx': idx}
         else:
             style = rng.random()
             if style < 0.2:
@@ -683,6 +765,15 @@ def gen_run(seed, params):
             test, na = gen_sel(rng, n, min(a, n))
             trial, nb = gen_sel(rng, n, min(b, n),
                                 allow_none=test['kind'] == 'none')
+            if S.get('graded') and test['kind'] == 'sub':
+                # make sure the deepest leaves take part
+                g = S['leaves']
+                deep = sorted(range(n), key=lambda q: (
+                    (g[q][1][1] - g[q][1][0]) * (g[q][0][1] - g[q][0][0]), q))
+                keep = deep[:rng.randint(1, 4)]
+                rest = [i for i in test['idx'] if i not in keep]
+                test = {'kind': 'sub',
+                        'idx': (keep + rest)[:max(len(test['idx']), 1)]}
             if test['kind'] == 'none' and rng.random() < 0.5:
                 trial = {'kind': 'none'}
             if twin:
